@@ -324,7 +324,10 @@ func (w *world) genPrice(st fstate, nmin *big.Int, prevFloor *big.Int, allowDyn 
 		return false, Bi(0), Bi(0), eff, class
 	}
 	// dynamic: effective = min(tip + base, cap); realise `eff` either through the cap or through the tip
-	switch r.Intn(4) {
+	switch r.Intn(5) {
+	case 4: // what a wallet does: no tip, a generous cap; the effective price is the base fee whatever the cap
+		tip, cap = Bi(0), Badd(new(big.Int).Mul(maxB(floor, eff), Bi(2)), 10)
+		class = "base-fee/tip0-generous-cap"
 	case 0: // tip 0, cap = eff (cap = base fee when eff = base)
 		tip, cap = Bi(0), eff
 		class += "/tip0-cap"
@@ -544,6 +547,9 @@ func runHistory(t *testing.T, hi int, r *Rng, side *Sidecar, cases *CasesFile) {
 		nd := r.Intn(len(w.dprobe) + 1)
 		if k > 0 && prevFloor != nil && prevFloor.Cmp(floor) != 0 && nd < 2 {
 			nd = 2 // right after the floor moved
+		}
+		if pre.Base.Cmp(C09FloorMin(pre.Min)) < 0 {
+			nd = len(w.dprobe) // the minimum gas price, not the base fee, is what prices this block
 		}
 		for j := 0; j < nd; j++ {
 			if finite(pre.Mg) && cumLimit >= limit {
